@@ -1012,4 +1012,476 @@ theorem frechet_tight_explicit (op : Rat → Rat → Rat)
     obtain ⟨σ, h1, h2⟩ := frechetRight_tight op hop X.right Y.right n hX.rlen hY.rlen hX.rsorted hY.rsorted i r hr
     exact ⟨σ, (isRank_iff_right _ _ _).mpr ⟨h1, h2⟩⟩
 
+/-! ## the independent rule for a monotone operation, and its enclosure by Frechet -/
+
+theorem cartesian_cons (op : Rat → Rat → Rat) (a : Rat) (t b : List Rat) :
+    cartesian op (a :: t) b = b.map (fun y => op a y) ++ cartesian op t b := by
+  simp [cartesian]
+
+theorem cartesian_append (op : Rat → Rat → Rat) (a1 a2 b : List Rat) :
+    cartesian op (a1 ++ a2) b = cartesian op a1 b ++ cartesian op a2 b := by
+  simp [cartesian]
+
+theorem cartesian_length (op : Rat → Rat → Rat) (a b : List Rat) :
+    (cartesian op a b).length = a.length * b.length := by
+  induction a with
+  | nil => simp [cartesian]
+  | cons x t ih => rw [cartesian_cons, List.length_append, ih]; simp [Nat.succ_mul, Nat.add_comm]
+
+theorem zip4_append (f : Rat → Rat → Rat → Rat → Rat) (a1 a2 a3 a4 b1 b2 b3 b4 : List Rat)
+    (h2 : a2.length = a1.length) (h3 : a3.length = a1.length) (h4 : a4.length = a1.length) :
+    zip4 f (a1 ++ b1) (a2 ++ b2) (a3 ++ b3) (a4 ++ b4) = zip4 f a1 a2 a3 a4 ++ zip4 f b1 b2 b3 b4 := by
+  induction a1 generalizing a2 a3 a4 with
+  | nil =>
+    have e2 := List.eq_nil_of_length_eq_zero h2
+    have e3 := List.eq_nil_of_length_eq_zero h3
+    have e4 := List.eq_nil_of_length_eq_zero h4
+    subst e2 e3 e4
+    simp [zip4]
+  | cons x t ih =>
+    cases a2 with
+    | nil => simp at h2
+    | cons x2 t2 =>
+    cases a3 with
+    | nil => simp at h3
+    | cons x3 t3 =>
+    cases a4 with
+    | nil => simp at h4
+    | cons x4 t4 =>
+      simp only [List.cons_append, zip4]
+      rw [ih t2 t3 t4 (by simpa using h2) (by simpa using h3) (by simpa using h4)]
+
+theorem row_mono (op : Rat → Rat → Rat)
+    (hop : ∀ p p' q q', p ≤ p' → q ≤ q' → op p q ≤ op p' q') (a b : Rat) (hab : a ≤ b)
+    (yl yr : List Rat) (hy : List.Forall₂ (· ≤ ·) yl yr) :
+    zip4 min4 (yl.map (fun y => op a y)) (yr.map (fun y => op a y)) (yl.map (fun y => op b y))
+        (yr.map (fun y => op b y)) = yl.map (fun y => op a y) ∧
+    zip4 max4 (yl.map (fun y => op a y)) (yr.map (fun y => op a y)) (yl.map (fun y => op b y))
+        (yr.map (fun y => op b y)) = yr.map (fun y => op b y) := by
+  induction hy with
+  | nil => simp [zip4]
+  | @cons c d tc td hcd _ ih =>
+    obtain ⟨e1, e2⟩ := corner_mono op hop a b c d hab hcd
+    refine ⟨?_, ?_⟩
+    · simp only [List.map_cons, zip4]; rw [e1, ih.1]
+    · simp only [List.map_cons, zip4]; rw [e2, ih.2]
+
+/-- the `n²` focal combinations under a monotone operation: lower endpoints with lower endpoints -/
+theorem grid_mono (op : Rat → Rat → Rat)
+    (hop : ∀ p p' q q', p ≤ p' → q ≤ q' → op p q ≤ op p' q') (xl xr yl yr : List Rat)
+    (hx : List.Forall₂ (· ≤ ·) xl xr) (hy : List.Forall₂ (· ≤ ·) yl yr) :
+    zip4 min4 (cartesian op xl yl) (cartesian op xl yr) (cartesian op xr yl) (cartesian op xr yr) =
+      cartesian op xl yl ∧
+    zip4 max4 (cartesian op xl yl) (cartesian op xl yr) (cartesian op xr yl) (cartesian op xr yr) =
+      cartesian op xr yr := by
+  induction hx with
+  | nil => simp [cartesian, zip4]
+  | @cons a b ta tb hab _ ih =>
+    obtain ⟨r1, r2⟩ := row_mono op hop a b hab yl yr hy
+    have hl := hy.length_eq
+    simp only [cartesian_cons]
+    rw [zip4_append _ _ _ _ _ _ _ _ _ (by simp [hl]) (by simp) (by simp [hl]),
+      zip4_append _ _ _ _ _ _ _ _ _ (by simp [hl]) (by simp) (by simp [hl]), r1, r2, ih.1, ih.2]
+    exact ⟨rfl, rfl⟩
+
+theorem independentOp_mono (op : Rat → Rat → Rat)
+    (hop : ∀ p p' q q', p ≤ p' → q ≤ q' → op p q ≤ op p' q') (n : Nat) (X Y : PB) (hX : WF n X) (hY : WF n Y) :
+    independentOp op X Y = (sortR (cartesian op X.left Y.left), sortR (cartesian op X.right Y.right)) := by
+  obtain ⟨e1, e2⟩ := grid_mono op hop _ _ _ _ (forall₂_of_wf n X hX) (forall₂_of_wf n Y hY)
+  simp only [independentOp, cornersSorted, e1, e2]
+
+theorem map_forall₂ (op : Rat → Rat → Rat)
+    (hop : ∀ p p' q q', p ≤ p' → q ≤ q' → op p q ≤ op p' q') (a b : Rat) (hab : a ≤ b)
+    (yl yr : List Rat) (hy : List.Forall₂ (· ≤ ·) yl yr) :
+    List.Forall₂ (· ≤ ·) (yl.map (fun y => op a y)) (yr.map (fun y => op b y)) := by
+  induction hy with
+  | nil => simp
+  | @cons c d tc td hcd _ ih =>
+    simp only [List.map_cons]
+    exact List.Forall₂.cons (hop _ _ _ _ hab hcd) ih
+
+theorem forall₂_append {a a' b b' : List Rat} (h1 : List.Forall₂ (· ≤ ·) a a') (h2 : List.Forall₂ (· ≤ ·) b b') :
+    List.Forall₂ (· ≤ ·) (a ++ b) (a' ++ b') := by
+  induction h1 with
+  | nil => simpa using h2
+  | cons h _ ih => exact List.Forall₂.cons h ih
+
+theorem cartesian_forall₂ (op : Rat → Rat → Rat)
+    (hop : ∀ p p' q q', p ≤ p' → q ≤ q' → op p q ≤ op p' q') (xl xr yl yr : List Rat)
+    (hx : List.Forall₂ (· ≤ ·) xl xr) (hy : List.Forall₂ (· ≤ ·) yl yr) :
+    List.Forall₂ (· ≤ ·) (cartesian op xl yl) (cartesian op xr yr) := by
+  induction hx with
+  | nil => simp [cartesian]
+  | @cons a b ta tb hab _ ih =>
+    simp only [cartesian_cons]
+    exact forall₂_append (map_forall₂ op hop a b hab yl yr hy) ih
+
+/-! ### counting in the `n × n` grid -/
+
+theorem countP_cartesian_le (op : Rat → Rat → Rat) (P : Rat → Bool) (a b : List Rat) (c : Nat)
+    (h : ∀ x ∈ a, (b.map (fun y => op x y)).countP P ≤ c) : (cartesian op a b).countP P ≤ a.length * c := by
+  induction a with
+  | nil => simp [cartesian]
+  | cons x t ih =>
+    rw [cartesian_cons, List.countP_append, List.length_cons, Nat.succ_mul]
+    have h1 := h x (by simp)
+    have h2 := ih (fun y hy => h y (by simp [hy]))
+    omega
+
+/-- a row in which the predicate fails from position `t` on has at most `t` hits -/
+theorem countP_map_le_of_tail (f : Rat → Rat) (P : Rat → Bool) (b : List Rat) (t : Nat)
+    (h : ∀ j (hj : j < b.length), t ≤ j → P (f b[j]) = false) : (b.map f).countP P ≤ t := by
+  rw [← List.take_append_drop t b, List.map_append, List.countP_append]
+  have h1 : ((b.take t).map f).countP P ≤ t :=
+    le_trans (List.countP_le_length) (by simp)
+  have h2 : ((b.drop t).map f).countP P = 0 := by
+    rw [List.countP_eq_zero]
+    intro x hx
+    rw [List.mem_map] at hx
+    obtain ⟨y, hy, rfl⟩ := hx
+    obtain ⟨j, hj, rfl⟩ := List.mem_drop_iff_getElem.mp hy
+    rw [h (t + j) (by omega) (by omega)]
+    simp
+  omega
+
+/-- a row in which the predicate fails before position `t` has at most `length - t` hits -/
+theorem countP_map_le_of_head (f : Rat → Rat) (P : Rat → Bool) (b : List Rat) (t : Nat)
+    (h : ∀ j (hj : j < b.length), j < t → P (f b[j]) = false) : (b.map f).countP P ≤ b.length - t := by
+  rw [← List.take_append_drop t b, List.map_append, List.countP_append]
+  have h1 : ((b.take t).map f).countP P = 0 := by
+    rw [List.countP_eq_zero]
+    intro x hx
+    rw [List.mem_map] at hx
+    obtain ⟨y, hy, rfl⟩ := hx
+    obtain ⟨j, hj, rfl⟩ := List.mem_take_iff_getElem.mp hy
+    rw [h j (by omega) (by omega)]
+    simp
+  have h2 : ((b.drop t).map f).countP P ≤ b.length - t :=
+    le_trans (List.countP_le_length) (by simp)
+  simp only [List.take_append_drop]
+  omega
+
+theorem sorted_get_le (a : List Rat) (sa : a.Pairwise (· ≤ ·)) (i j : Nat) (hi : i < a.length) (hj : j < a.length)
+    (hij : i ≤ j) : a[i] ≤ a[j] := by
+  rcases Nat.lt_or_ge i j with h | h
+  · exact (List.pairwise_iff_getElem.mp sa) i j hi hj h
+  · have : i = j := by omega
+    subst this; exact le_refl _
+
+theorem cartesian_split (op : Rat → Rat → Rat) (a b : List Rat) (p : Nat) :
+    cartesian op a b = cartesian op (a.take p) b ++ cartesian op (a.drop p) b := by
+  rw [← cartesian_append, List.take_append_drop]
+
+/-- at most `p·n + (n-p)·q` of the `n²` combinations satisfy a predicate that fails on the upper-right
+quadrant `i ≥ p, j ≥ q` -/
+theorem count_quadrant_low (op : Rat → Rat → Rat) (P : Rat → Bool) (a b : List Rat) (n : Nat)
+    (ha : a.length = n) (hb : b.length = n) (p q : Nat) (hp : p ≤ n)
+    (h : ∀ i j (hi : i < n) (hj : j < n), p ≤ i → q ≤ j → P (op (a[i]'(by omega)) (b[j]'(by omega))) = false) :
+    (cartesian op a b).countP P ≤ p * n + (n - p) * q := by
+  rw [cartesian_split op a b p, List.countP_append]
+  have h1 : (cartesian op (a.take p) b).countP P ≤ p * n := by
+    refine le_trans List.countP_le_length ?_
+    rw [cartesian_length, hb]
+    exact Nat.mul_le_mul_right n (by simp)
+  have h2 : (cartesian op (a.drop p) b).countP P ≤ (n - p) * q := by
+    have := countP_cartesian_le op P (a.drop p) b q ?_
+    · simpa [ha] using this
+    · intro x hx
+      obtain ⟨i, hi, rfl⟩ := List.mem_drop_iff_getElem.mp hx
+      apply countP_map_le_of_tail
+      intro j hj hqj
+      exact h (p + i) j (by omega) (by omega) (by omega) hqj
+  omega
+
+/-- at most `(n-p)·n + p·(n-q)` of the `n²` combinations satisfy a predicate that fails on the
+lower-left quadrant `i < p, j < q` -/
+theorem count_quadrant_high (op : Rat → Rat → Rat) (P : Rat → Bool) (a b : List Rat) (n : Nat)
+    (ha : a.length = n) (hb : b.length = n) (p q : Nat) (hp : p ≤ n)
+    (h : ∀ i j (hi : i < n) (hj : j < n), i < p → j < q → P (op (a[i]'(by omega)) (b[j]'(by omega))) = false) :
+    (cartesian op a b).countP P ≤ (n - p) * n + p * (n - q) := by
+  rw [cartesian_split op a b p, List.countP_append]
+  have h2 : (cartesian op (a.drop p) b).countP P ≤ (n - p) * n := by
+    refine le_trans List.countP_le_length ?_
+    rw [cartesian_length, hb]
+    exact Nat.mul_le_mul_right n (by simp [ha])
+  have h1 : (cartesian op (a.take p) b).countP P ≤ p * (n - q) := by
+    have := countP_cartesian_le op P (a.take p) b (n - q) ?_
+    · have hlen : (a.take p).length = p := by simp [ha]; omega
+      rw [hlen] at this; exact this
+    · intro x hx
+      obtain ⟨i, hi, rfl⟩ := List.mem_take_iff_getElem.mp hx
+      have := countP_map_le_of_head (fun y => op a[i] y) P b q ?_
+      · rw [hb] at this; exact this
+      · intro j hj hjq
+        exact h i j (by omega) (by omega) (by omega) hjq
+  omega
+
+/-- at most `p·n + (n-p)·q` of the `n²` combinations fall strictly below `op a[p] b[q]` -/
+theorem count_below (op : Rat → Rat → Rat)
+    (hop : ∀ p p' q q', p ≤ p' → q ≤ q' → op p q ≤ op p' q') (a b : List Rat) (n : Nat)
+    (ha : a.length = n) (hb : b.length = n) (sa : a.Pairwise (· ≤ ·)) (sb : b.Pairwise (· ≤ ·))
+    (p q : Nat) (hp : p < n) (hq : q < n) :
+    (cartesian op a b).countP (fun z => decide (z < op (a[p]'(by omega)) (b[q]'(by omega)))) ≤
+      p * n + (n - p) * q := by
+  apply count_quadrant_low op _ a b n ha hb p q (by omega)
+  intro i j hi hj hpi hqj
+  simp only [decide_eq_false_iff_not, not_lt]
+  exact hop _ _ _ _ (sorted_get_le a sa p i (by omega) (by omega) hpi)
+    (sorted_get_le b sb q j (by omega) (by omega) hqj)
+
+/-- at most `(n-1-p)·n + (p+1)·(n-1-q)` of the `n²` combinations lie strictly above `op a[p] b[q]` -/
+theorem count_above (op : Rat → Rat → Rat)
+    (hop : ∀ p p' q q', p ≤ p' → q ≤ q' → op p q ≤ op p' q') (a b : List Rat) (n : Nat)
+    (ha : a.length = n) (hb : b.length = n) (sa : a.Pairwise (· ≤ ·)) (sb : b.Pairwise (· ≤ ·))
+    (p q : Nat) (hp : p < n) (hq : q < n) :
+    (cartesian op a b).countP (fun z => decide (op (a[p]'(by omega)) (b[q]'(by omega)) < z)) ≤
+      (n - 1 - p) * n + (p + 1) * (n - 1 - q) := by
+  have key := count_quadrant_high op (fun z => decide (op (a[p]'(by omega)) (b[q]'(by omega)) < z)) a b n ha hb
+    (p + 1) (q + 1) (by omega) ?_
+  · have e1 : n - (p + 1) = n - 1 - p := by omega
+    have e2 : n - (q + 1) = n - 1 - q := by omega
+    rw [e1, e2] at key; exact key
+  · intro i j hi hj hip hjq
+    simp only [decide_eq_false_iff_not, not_lt]
+    exact hop _ _ _ _ (sorted_get_le a sa i p (by omega) (by omega) (by omega))
+      (sorted_get_le b sb j q (by omega) (by omega) (by omega))
+
+/-- **every order statistic of the `n²` independent combinations inside block `k` (ranks `kn … kn+n-1`)
+lies inside step `k` of the Frechet result** -/
+theorem indep_block_enclosed (op : Rat → Rat → Rat)
+    (hop : ∀ p p' q q', p ≤ p' → q ≤ q' → op p q ≤ op p' q')
+    (n : Nat) (X Y : PB) (hX : WF n X) (hY : WF n Y) (k : Nat) (hk : k < n) (l r : Rat)
+    (hl : (rawF op X Y).left[k]? = some l) (hr : (rawF op X Y).right[k]? = some r)
+    (idx : Nat) (h1 : n * k ≤ idx) (h2 : idx + 1 ≤ n * k + n)
+    (hiL : idx < (sortR (cartesian op X.left Y.left)).length)
+    (hiR : idx < (sortR (cartesian op X.right Y.right)).length) :
+    l ≤ (sortR (cartesian op X.left Y.left))[idx] ∧ (sortR (cartesian op X.right Y.right))[idx] ≤ r := by
+  constructor
+  · obtain ⟨v, hv, -, j, hj, hatt⟩ := frechetLeftRaw_spec op X.left Y.left (by rw [hX.llen, hY.llen]) k
+      (by rw [hX.llen]; exact hk)
+    have e : (rawF op X Y).left[k]? = some v := hv
+    rw [hl] at e
+    have e' := Option.some.inj e
+    subst e'
+    by_contra hlt
+    rw [not_le] at hlt
+    have c1 : idx < (sortR (cartesian op X.left Y.left)).countP
+        (fun x => decide (x ≤ (sortR (cartesian op X.left Y.left))[idx])) :=
+      (sorted_getElem_le_iff _ (sortR_sorted _) _ idx hiL).mp (le_refl _)
+    rw [(sortR_perm _).countP_eq] at c1
+    have c2 : (cartesian op X.left Y.left).countP
+        (fun x => decide (x ≤ (sortR (cartesian op X.left Y.left))[idx])) ≤
+        (cartesian op X.left Y.left).countP (fun x => decide (x < l)) := by
+      apply List.countP_mono_left
+      intro x _ hx
+      simp only [decide_eq_true_eq] at hx ⊢
+      exact lt_of_le_of_lt hx hlt
+    have c3 := count_below op hop X.left Y.left n hX.llen hY.llen hX.lsorted hY.lsorted j (k - j)
+      (by omega) (by omega)
+    rw [← hatt] at c3
+    have c4 : (n - j) * (k - j) ≤ n * (k - j) := Nat.mul_le_mul_right _ (Nat.sub_le n j)
+    have c5 : j * n + n * (k - j) = n * k := by
+      rw [Nat.mul_comm j n, ← Nat.mul_add]; congr 1; omega
+    omega
+  · obtain ⟨w, hw, -, t, ht, hatt⟩ := frechetRightRaw_spec op X.right Y.right n hX.rlen hY.rlen k hk
+    have e : (rawF op X Y).right[k]? = some w := hw
+    rw [hr] at e
+    have e' := Option.some.inj e
+    subst e'
+    rw [sorted_getElem_le_iff _ (sortR_sorted _) r idx hiR, (sortR_perm _).countP_eq]
+    have tot := List.length_eq_countP_add_countP (fun x => decide (x ≤ r)) (l := cartesian op X.right Y.right)
+    rw [cartesian_length, hX.rlen, hY.rlen] at tot
+    have c3 := count_above op hop X.right Y.right n hX.rlen hY.rlen hX.rsorted hY.rsorted (k + t) (n - 1 - t)
+      (by omega) (by omega)
+    rw [← hatt] at c3
+    have c2 : (cartesian op X.right Y.right).countP (fun a => decide ¬(decide (a ≤ r)) = true) =
+        (cartesian op X.right Y.right).countP (fun z => decide (r < z)) := by
+      congr 1
+      funext a
+      simp
+    rw [c2] at tot
+    -- arithmetic: n² - (n-1-p)·n - (p+1)·t ≥ (k+1)·n  for p = k + t, t ≤ n-k-1
+    obtain ⟨u, hu⟩ : ∃ u, n = k + t + 1 + u := ⟨n - (k + t + 1), by omega⟩
+    have e1 : n - 1 - (k + t) = u := by omega
+    have e2 : n - 1 - (n - 1 - t) = t := by omega
+    rw [e1, e2] at c3
+    by_contra hcon
+    rw [not_lt] at hcon
+    have key : n * n + 1 ≤ n * k + n + (u * n + (k + t + 1) * t) := by omega
+    subst hu
+    nlinarith [Nat.zero_le (t * u), key]
+
+/-! ### condensation of the `n²` values by the constructor (as in `Pun.Iso`) -/
+
+theorem getD_of_lt (l : List Rat) (i : Nat) (d : Rat) (h : i < l.length) : l.getD i d = l[i] :=
+  (List.getElem_eq_getD d).symm
+
+theorem condense_length (n : Nat) (b : List Rat) : (condense n b).length = n := by simp [condense]
+
+theorem condenseIdx_lt (len n k : Nat) (hlen : 0 < len) (hk : k < n) : condenseIdx len n k < len := by
+  unfold condenseIdx
+  split
+  · exact hlen
+  · rename_i h
+    have hn : 0 < n - 1 := by omega
+    have : k * (len - 1) / (n - 1) ≤ len - 1 := by
+      apply Nat.div_le_of_le_mul
+      have : k ≤ n - 1 := by omega
+      exact Nat.mul_le_mul_right _ this
+    omega
+
+theorem condenseIdx_mono (len n k k' : Nat) (h : k ≤ k') : condenseIdx len n k ≤ condenseIdx len n k' := by
+  unfold condenseIdx
+  split
+  · exact le_refl _
+  · exact Nat.div_le_div_right (Nat.mul_le_mul_right _ h)
+
+theorem condense_getElem? (n : Nat) (b : List Rat) (hb : 0 < b.length) (k : Nat) (hk : k < n) :
+    (condense n b)[k]? = some (b[condenseIdx b.length n k]'(condenseIdx_lt _ _ _ hb hk)) := by
+  unfold condense
+  rw [List.getElem?_map, List.getElem?_range hk]
+  simp only [Option.map_some]
+  rw [getD_of_lt _ _ _ (condenseIdx_lt _ _ _ hb hk)]
+
+theorem condense_sorted (n : Nat) (b : List Rat) (hb : 0 < b.length) (s : b.Pairwise (· ≤ ·)) :
+    (condense n b).Pairwise (· ≤ ·) := by
+  rw [List.pairwise_iff_getElem]
+  intro i j hi hj hij
+  rw [condense_length] at hi hj
+  have e1 := condense_getElem? n b hb i hi
+  have e2 := condense_getElem? n b hb j hj
+  rw [List.getElem?_eq_getElem (by rw [condense_length]; exact hi)] at e1
+  rw [List.getElem?_eq_getElem (by rw [condense_length]; exact hj)] at e2
+  rw [Option.some.inj e1, Option.some.inj e2]
+  exact sorted_get_le b s _ _ _ _ (condenseIdx_mono _ _ _ _ (le_of_lt hij))
+
+/-- condensation index for `n²` values down to `n`: entry `k(n+1)` -/
+theorem condense_index (n k : Nat) (hn : 2 ≤ n) : condenseIdx (n * n) n k = k * (n + 1) := by
+  unfold condenseIdx
+  have h1 : ¬ n ≤ 1 := by omega
+  simp only [h1, if_false]
+  have h2 : n * n - 1 = (n + 1) * (n - 1) := by
+    obtain ⟨m, rfl⟩ : ∃ m, n = m + 2 := ⟨n - 2, by omega⟩
+    have e1 : m + 2 - 1 = m + 1 := by omega
+    have e2 : (m + 2) * (m + 2) = (m + 2 + 1) * (m + 1) + 1 := by ring
+    rw [e1, e2]; omega
+  rw [h2, ← Nat.mul_assoc, Nat.mul_div_cancel _ (by omega : 0 < n - 1)]
+
+/-- … which lies in the `k`-th block of `n` consecutive order statistics -/
+theorem condense_block (n k : Nat) (hn : 2 ≤ n) (hk : k < n) :
+    k * n ≤ condenseIdx (n * n) n k ∧ condenseIdx (n * n) n k ≤ k * n + (n - 1) := by
+  rw [condense_index n k hn]
+  constructor
+  · nlinarith
+  · have : k * (n + 1) = k * n + k := by ring
+    omega
+
+/-- the constructor on the sorted `n²` endpoints of the independent rule: it returns, and step `k` of
+the result is entry `idx` of each sorted list for one index inside block `k` -/
+theorem mk_indep_ok (n : Nat) (l r : List Rat) (hl : l.length = n * n) (hr : r.length = n * n)
+    (sl : l.Pairwise (· ≤ ·)) (sr : r.Pairwise (· ≤ ·)) (hle : List.Forall₂ (· ≤ ·) l r) :
+    ∃ D, mk n false l r = .ok D ∧ WF n D ∧
+      ∀ k (hk : k < n), ∃ idx, idx < n * n ∧ n * k ≤ idx ∧ idx + 1 ≤ n * k + n ∧
+        D.left[k]? = l[idx]? ∧ D.right[k]? = r[idx]? := by
+  rcases Nat.lt_or_ge n 2 with hn | hn
+  · -- n ≤ 1: nothing is condensed
+    have hnn : n * n = n := by
+      rcases Nat.eq_zero_or_pos n with h0 | h0
+      · subst h0; rfl
+      · have : n = 1 := by omega
+        subst this; rfl
+    rw [hnn] at hl hr
+    refine ⟨⟨l, r⟩, mk_arr_ok n l r hl hr sl sr (fun i h => forall₂_getElem l r hle i h),
+      ⟨⟨hl, hr, sl, sr⟩, fun i h => forall₂_getElem l r hle i (by omega)⟩, ?_⟩
+    intro k hk
+    have hk0 : k = 0 := by omega
+    have hn1 : n = 1 := by omega
+    subst hk0 hn1
+    exact ⟨0, by omega, by omega, by omega, rfl, rfl⟩
+  · have hlt : n < n * n := by nlinarith
+    have hlp : 0 < l.length := by omega
+    have hrp : 0 < r.length := by omega
+    have scl := condense_sorted n l hlp sl
+    have scr := condense_sorted n r hrp sr
+    have hcle : ∀ i (h : i < (condense n l).length), (condense n l)[i] ≤ (condense n r)[i]'(by
+        rw [condense_length] at h ⊢; exact h) := by
+      intro i h
+      rw [condense_length] at h
+      have e1 := condense_getElem? n l hlp i h
+      have e2 := condense_getElem? n r hrp i h
+      rw [List.getElem?_eq_getElem (by rw [condense_length]; exact h)] at e1 e2
+      rw [Option.some.inj e1, Option.some.inj e2]
+      have hidx := condenseIdx_lt l.length n i hlp h
+      have := forall₂_getElem l r hle _ hidx
+      simp only [hl, hr] at this ⊢
+      exact this
+    have il := isIncreasing_of_sorted _ scl
+    have ir := isIncreasing_of_sorted _ scr
+    have nc := no_cross (condense n l) (condense n r) (by rw [condense_length, condense_length]) hcle
+    have bl : boundSteps n l = .ok (condense n l) := by simp [boundSteps, hl, hlt]
+    have br : boundSteps n r = .ok (condense n r) := by simp [boundSteps, hr, hlt]
+    have hlr : l.length = r.length := by rw [hl, hr]
+    have hmk : mk n false l r = .ok ⟨condense n l, condense n r⟩ := by
+      by_cases h : allGe l r = true
+      · have e : l = r := allGe_antisymm l r hlr (fun i h => forall₂_getElem l r hle i h) h
+        subst e
+        simp [mk, h, bl, il, bind, Except.bind, condense_length]
+        simpa using nc
+      · simp only [Bool.not_eq_true] at h
+        simp [mk, h, bl, br, il, ir, bind, Except.bind, hlr, condense_length]
+        simpa using nc
+    refine ⟨_, hmk, ⟨⟨condense_length n l, condense_length n r, scl, scr⟩,
+      fun i h => hcle i (by rw [condense_length]; exact h)⟩, ?_⟩
+    intro k hk
+    obtain ⟨b1, b2⟩ := condense_block n k hn hk
+    have hidx : condenseIdx (n * n) n k < n * n := condenseIdx_lt (n * n) n k (by omega) hk
+    refine ⟨condenseIdx (n * n) n k, hidx, by rw [Nat.mul_comm]; exact b1, by rw [Nat.mul_comm n k]; omega, ?_, ?_⟩
+    · have := condense_getElem? n l hlp k hk
+      rw [this, List.getElem?_eq_getElem (by rw [hl]; exact hidx)]
+      simp only [hl]
+    · have := condense_getElem? n r hrp k hk
+      rw [this, List.getElem?_eq_getElem (by rw [hr]; exact hidx)]
+      simp only [hr]
+
+/-- **Frechet encloses the independent result** (any operation monotone in both arguments): the
+constructor returns on the `n²` sorted combinations, and every step of the condensed result lies inside
+the same step of the raw Frechet bounds -/
+theorem frechet_encloses_independent (op : Rat → Rat → Rat)
+    (hop : ∀ p p' q q', p ≤ p' → q ≤ q' → op p q ≤ op p' q')
+    (n : Nat) (X Y : PB) (hX : WF n X) (hY : WF n Y) :
+    ∃ D, mk n false (independentOp op X Y).1 (independentOp op X Y).2 = .ok D ∧ WF n D ∧
+      Encloses (rawF op X Y) D := by
+  rw [independentOp_mono op hop n X Y hX hY]
+  have lL : (sortR (cartesian op X.left Y.left)).length = n * n := by
+    rw [sortR_length, cartesian_length, hX.llen, hY.llen]
+  have lR : (sortR (cartesian op X.right Y.right)).length = n * n := by
+    rw [sortR_length, cartesian_length, hX.rlen, hY.rlen]
+  obtain ⟨D, hD, wD, hidx⟩ := mk_indep_ok n _ _ lL lR (sortR_sorted _) (sortR_sorted _)
+    (sortR_forall₂ _ _ (cartesian_forall₂ op hop _ _ _ _ (forall₂_of_wf n X hX) (forall₂_of_wf n Y hY)))
+  refine ⟨D, hD, wD, ?_⟩
+  intro k l r dl dr hl hr hdl hdr
+  have hk : k < n := by
+    have := (List.getElem?_eq_some_iff.mp hl).1
+    simp only [rawF, frechetLeftRaw_length, hX.llen] at this
+    exact this
+  obtain ⟨idx, hlt, b1, b2, eL, eR⟩ := hidx k hk
+  rw [eL, List.getElem?_eq_getElem (by rw [lL]; exact hlt)] at hdl
+  rw [eR, List.getElem?_eq_getElem (by rw [lR]; exact hlt)] at hdr
+  rw [← Option.some.inj hdl, ← Option.some.inj hdr]
+  exact indep_block_enclosed op hop n X Y hX hY k hk l r hl hr idx b1 b2 (by omega) (by omega)
+
+theorem independentOp_mul_eq (X Y : PB) (pX : NonNeg X) (pY : NonNeg Y) :
+    independentOp (· * ·) X Y = independentOp mulPos X Y := by
+  have e : ∀ (a b : List Rat), (∀ x ∈ a, 0 ≤ x) → (∀ y ∈ b, 0 ≤ y) →
+      cartesian (· * ·) a b = cartesian mulPos a b := by
+    intro a b ha hb
+    unfold cartesian
+    apply List.flatMap_congr
+    intro x hx
+    apply List.map_congr_left
+    intro y hy
+    exact (mulPos_eq x y (ha x hx) (hb y hy)).symm
+  unfold independentOp cornersSorted
+  rw [e _ _ pX.1 pY.1, e _ _ pX.1 pY.2, e _ _ pX.2 pY.1, e _ _ pX.2 pY.2]
+
 end Pun.PBox
